@@ -21,6 +21,7 @@ PROP = dict(
         # state level: the vault bookkeeping around CalculationOfRewards (time base, BlockHeight == 0 flag, tracker, stamps)
         "Comdex.C18.vault_calc_books_interest", "Comdex.C18.vault_next_interval_starts_here",
         "Comdex.C18.accrual_subadditive", "Comdex.C18.more_frequent_triggering_not_more", "Comdex.C18.fee_toggle_restarts_clock",
+        "Comdex.C18.fee_zero_window_touched_counterexample",
         # state level: the locker bookkeeping (collector rate + stamp, locker stamp + BlockHeight == 0 flag, tracker), all histories
         "Comdex.C18.savings_only_for_time_at_positive_rate", "Comdex.C18.savings_time_budget_from_any_state",
         "Comdex.C18.zero_rate_window_touched_counterexample", "Comdex.C18.savings_only_for_time_at_positive_rate_repaired",
